@@ -25,6 +25,13 @@ def check(run, views, tier):
     for cfg, crates in views.items():
         run.cfg = cfg
         F = crates["ipp"]
+        # the nesting limit is tested before the stack grows (a limit tested after the push refuses the deepest legal message) - R-DEPTH
+        from .. import guardrules as _gr
+        from ..engine import VERIF as _V, load_json as _lj
+        import os as _os
+        _saved = (run.explanation, run.trusted, run.not_decided)
+        _gr.r_depth(run, F, _lj(_os.path.join(_V, "tables", "panic.json")))
+        run.explanation, run.trusted, run.not_decided = _saved
         n = cr.r_tagmap(run, F, T, check_registry=False)
         run.floor("R-TAGMAP", n, 19, "fixed-tag kinds")
         ne, nd = cr.r_layout(run, F, T, external=False, casts=True)
